@@ -693,7 +693,11 @@ Inductive event :=
        message - what the handler had done so far stays, nothing is emitted, nothing is answered *)
 | EvReport (seid : N) (items : list report_item) (e : env)
 | EvTimeoutTx (peer seq : N)
-| EvTimeoutRx (peer seq : N).
+| EvTimeoutRx (peer seq : N)
+| EvReportWF (seid : N) (items : list report_item) (e : env).
+    (* a report served while every write on the PFCP socket FAILS (transient send failure): sendReqTo takes the counter,
+       registers the transaction and arms its timer BEFORE it writes, and only logs the error of the write - so the
+       state is that of EvReport and nothing is emitted *)
 
 Definition key_eqb (a b : N * N) : bool := N.eqb (fst a) (fst b) && N.eqb (snd a) (snd b).
 
@@ -1026,6 +1030,11 @@ Definition timeout_tx (w : world) (peer seq : N) : world * list out :=
     else (set_tx (kdel (peer, seq) (w_tx w)) (w_txseq w) w, [])
   end.
 
+Definition is_send (o : out) : bool := match o with OSend _ _ _ => true | ODrv _ _ _ _ _ => false end.
+Definition drop_sends (l : list out) : list out := filter (fun o => negb (is_send o)) l.
+Definition write_fails (r : res (world * list out)) : res (world * list out) :=
+  match r with Ok (w', o) => Ok (w', drop_sends o) | Fault f => Fault f end.
+
 Definition step (w : world) (ev : event) : res (world * list out) :=
   match ev with
   | EvRecv peer seq m e =>
@@ -1039,6 +1048,7 @@ Definition step (w : world) (ev : event) : res (world * list out) :=
   | EvReport seid items _ => serve_report w seid items
   | EvTimeoutTx peer seq => Ok (timeout_tx w peer seq)
   | EvTimeoutRx peer seq => Ok (set_rx (kdel (peer, seq) (w_rx w)) w, [])
+  | EvReportWF seid items _ => write_fails (serve_report w seid items)
   end.
 
 (* a run stops at the first fault (the real process exits) *)
